@@ -1010,3 +1010,55 @@ package bpmn
 //@     invariant count(WgDone, wg) == old(count(WgDone, wg))
 //@   loop 3 range msg.Node.MessageEventDefinitionField
 //@     invariant count(WgDone, wg) == old(count(WgDone, wg))
+
+// ---------------------------------------------------------------------------------------------------------------
+// activity.go: the harness around an activity and its boundary events (C10)
+
+// Interface contract: asking an activity to cancel is one Call event; the answer comes on the channel returned.
+//@ func Activity.Cancel
+//@   assumed
+//@   modifies nothing
+//@   flag allocs
+//@   emits Call(code("Activity.Cancel"), this)
+//@   ensures result != nil
+
+//@ type harness
+//@   field active atomic
+
+// Boundary events react only while the activity is waiting for its answer: an event arriving when the activity is
+// not active is not forwarded to any boundary listener.
+//@ func (*harness).ConsumeEvent
+//@   prop C10 C11
+//@   ensures [inactive-activity-forwards-nothing] count(Call, code("event|IConsumer.ConsumeEvent")) > old(count(Call, code("event|IConsumer.ConsumeEvent"))) ==> old(node.active) == 1
+
+// The action transformer of an interrupting boundary event: before the boundary's token may leave, the activity is
+// asked to cancel — at most once per harness (sync.Once) — and the answer is awaited; the action is passed on unchanged.
+//@ func newHarness$1
+//@   prop C10
+//@   ensures [action-unchanged] result == action
+//@   ensures [at-most-one-cancel-request] count(Call, code("Activity.Cancel")) <= old(count(Call, code("Activity.Cancel"))) + 1
+//@   ensures [a-cancel-request-is-awaited] count(Call, code("Activity.Cancel")) == old(count(Call, code("Activity.Cancel"))) + 1 ==>
+//@             evlen == old(evlen) + 2 && isCall(ev(old(evlen))) && isRecv(ev(old(evlen) + 1))
+
+// The relay goroutine of one activation: the activity's answer is passed on unchanged, then the harness is marked
+// inactive (boundary events stop reacting) and says so.
+//@ func (*harness).run$1
+//@   prop C10
+//@   ensures [answer-relayed-unchanged-then-deactivated] isRecv(ev(old(evlen))) && evch(ev(old(evlen))) == in ==>
+//@             evlen == old(evlen) + 3 && isSend(ev(old(evlen) + 1)) && evch(ev(old(evlen) + 1)) == out &&
+//@             evval(ev(old(evlen) + 1)) == evval(ev(old(evlen))) && node.active == 0 &&
+//@             isTrace(ev(old(evlen) + 2)) && is(evval(ev(old(evlen) + 2)), ActiveBoundaryTrace) && !evval(ev(old(evlen) + 2)).(ActiveBoundaryTrace).Start
+//@   ensures [context-end-relays-nothing] !(isRecv(ev(old(evlen))) && evch(ev(old(evlen))) == in) ==> evlen == old(evlen) + 1
+
+// One activation step of the harness: marked active first, announced, the activity asked, one relay goroutine
+// started, and the relay's output channel handed to the asking token.
+//@ func (*harness).run
+//@   prop C10 C07
+//@   loop 1 for
+//@     invariant node.mch == old(node.mch) && node.activity == old(node.activity)
+//@     iter ensures [activation-marks-active-asks-once-and-answers-with-the-relay]
+//@       isRecv(ev(old(evlen))) && evch(ev(old(evlen))) == node.mch && is(evval(ev(old(evlen))), nextHarnessActionMessage) ==>
+//@         node.active == 1 &&
+//@         isTrace(ev(old(evlen) + 1)) && is(evval(ev(old(evlen) + 1)), ActiveBoundaryTrace) && evval(ev(old(evlen) + 1)).(ActiveBoundaryTrace).Start &&
+//@         count(Spawn, code("(*harness).run$1")) == old(count(Spawn, code("(*harness).run$1"))) + 1 &&
+//@         isSend(ev(evlen - 1)) && evch(ev(evlen - 1)) == evval(ev(old(evlen))).(nextHarnessActionMessage).response
